@@ -46,6 +46,8 @@ dmap_f = z3.Function("Dmap", z3.ArraySort(I, V.RefSort), SS)
 minmap = z3.Function("minmap", SS, IS)
 maxmap = z3.Function("maxmap", SS, IS)
 
+opsmap_f = z3.Function("opsmap", z3.ArraySort(I, V.RefSort), z3.ArraySort(I, V.RefSort))  # opsmap C i = (C i)._op
+bls_op_f = z3.Function("fld!BitLengthSet!_op", V.RefSort, V.RefSort)
 lmap_f = z3.Function("Lmap", z3.ArraySort(I, V.RefSort), SS)   # Lmap C i = L (C i): sets of a list of types
 amap_f = z3.Function("Amap", z3.ArraySort(I, V.RefSort), IS)   # Amap C i = A (C i): alignments of a list of types
 L_uf = z3.Function("L!type", V.RefSort, S)                      # ghost: the Specification's bit length set of a type
@@ -81,6 +83,16 @@ def _vars():
     return A, Bs, F, G, M, N, a, b, c, d, k, k2, n, r, x, y, i
 
 
+def _reweigh(a, w):
+    vs = [z3.Const(a.var_name(i), a.var_sort(i)) for i in range(a.num_vars())]
+    body = z3.substitute_vars(a.body(), *reversed(vs))
+    pats = []
+    for i in range(a.num_patterns()):
+        ps = [z3.substitute_vars(c, *reversed(vs)) for c in a.pattern(i).children()]
+        pats.append(z3.MultiPattern(*ps) if len(ps) > 1 else ps[0])
+    return z3.ForAll(vs, body, weight=w, patterns=pats)
+
+
 def prelude() -> List[Tuple[str, str, Any]]:
     """(name, justification, axiom)"""
     A, Bs, F, G, M, N, a, b, c, d, k, k2, n, r, x, y, i = _vars()
@@ -92,7 +104,14 @@ def prelude() -> List[Tuple[str, str, Any]]:
     MP = z3.MultiPattern
     ax = []
 
+    LAZY = ("modset-in", "modset-out", "padset-in", "padset-out", "sumset-in", "sumset-out", "unions-in", "unions-out",
+            "rangefold-in", "rangefold-out", "wf-elim", "multiples-in", "multiples-out", "kfold-mem-mul")
+
     def add(name, why, f):
+        if name in LAZY and z3.is_quantifier(f):
+            # membership / witness axioms generate new elements that re-trigger each other: a higher weight makes the
+            # solver prefer every other instantiation first (same axiom, only the instantiation order changes)
+            f = _reweigh(f, 3)
         ax.append((name, why, f))
 
     # ---- integer helpers
@@ -171,6 +190,8 @@ def prelude() -> List[Tuple[str, str, Any]]:
     add("dmap", "definitional: Dmap C i = D (C i)  (the list of the children's sets)",
         FA([C, i], sel(dmap_f(C), i) == D_uf(sel(C, i)),
            patterns=[sel(dmap_f(C), i), MP(D_uf(sel(C, i)), dmap_f(C))]))
+    add("opsmap", "definitional: opsmap C i = (C i)._op  (the operators of a list of BitLengthSet objects)",
+        FA([C, i], sel(opsmap_f(C), i) == bls_op_f(sel(C, i)), patterns=[sel(opsmap_f(C), i)]))
     add("nsum-one", "Lean Bounds.nsum_single", FA([F], nsum(F, 1) == sel(F, 0), patterns=[nsum(F, 1)]))
     add("nsum-two", "Lean Bounds.nsum_pair", FA([F], nsum(F, 2) == sumset_f(sel(F, 0), sel(F, 1)), patterns=[nsum(F, 2)]))
     add("lmap", "definitional: Lmap C i = L (C i)",
